@@ -29,8 +29,10 @@ CLAIM = dict(
     ref="5.16", technique="Coq proof (view combinators characterised once: reshape = same row-major rank, tile = per-axis mod, "
                            "broadcasting multiply via the C06 element theorem, sum of the last axis; then composed per routine) "
                            "+ differential correspondence with the extracted model",
-    extra="arguments NumPy rejects (unequal contraction lengths, incompatible batch shapes, axis1 == axis2) are outside C16 "
-          "(acceptance is C15): spec 'unspecified'. dom=1 marks the hypotheses of the theorem of that routine (for the PARTIAL "
+    extra="operand SHAPES NumPy rejects (unequal contraction lengths incl. unit extents, incompatible batch shapes) must give "
+          "Nothing: spec 'nothing' (two known-finding classes: view::matmul traps, inner / vecdot / matmulv2 / tensordot accept a "
+          "contraction length 1 against k); other arguments NumPy rejects (axis1 == axis2, axes out of range, duplicate tensordot "
+          "axes) stay outside C16: spec 'unspecified'. dom=1 marks the hypotheses of the theorem of that routine (for the PARTIAL "
           "routines: NumPy-valid inputs; there model == spec is only tested, not proved)")
 RULE = ("matmul: all pairs of shapes (batch_a ++ [n,k]) x (batch_b ++ [k',m]) with batch dims 0..2, extents 1..3 (quick: every batch pair "
         "with a sampled (n,k,k',m); thorough: dim up to 4, extents up to 4), plus every 1-d promotion pattern, through view::matmul, "
@@ -49,7 +51,8 @@ THEOREM_STATUS = {"proved": ["C16_matmul_shape_spec", "C16_matmul_elem_spec", "C
                              "C16_outer_spec", "C16_diagonal_spec", "C16_trace_spec", "C16_default_arguments",
                              "C16_result_dtype_spec", "C16_result_dtype_numpy_divergences_tight", "C16_matmul_dtype_not_narrower"],
                   "partial": ["C16_tensordot_shape_partial", "C16_kron_shape_partial"],
-                  "refuted": ["C16_matmul_v1_1d_refuted", "C16_trace_empty_refuted", "C16_trace_empty_beyond_refuted"]}
+                  "refuted": ["C16_matmul_v1_1d_refuted", "C16_trace_empty_refuted", "C16_trace_empty_beyond_refuted",
+                              "C16_matmul_rejected_shapes_trap_refuted", "C16_unit_contraction_accepted_refuted"]}
 ASSUMPTIONS = ["extents are positive", "the scalar addition is associative with a right-neutral zero (integers in the correspondence)",
                "element overflow is not modelled (test data keep every sum far below 2^63)"]
 
@@ -285,6 +288,51 @@ def gen_cases(rng, tier):
             off = rng.choice([-1, 0, 0, 1])
             addd("typed1 S:trace S:%s %s I:%d I:%d I:%d" % (t_, TA(t_, s_), off, p_, q_))
             addd("typed1 S:diagonal S:%s %s I:%d I:%d I:%d" % (t_, TA(t_, s_), off, p_, q_))
+    # ---------------- the dtype ARGUMENT (trace, vecdot) through the run-time and the constant call forms
+    for (t_, d_) in [("i8", "i32"), ("i8", "i64"), ("u8", "i32"), ("i16", "f64"), ("i16", "i64"), ("i32", "i8"), ("f32", "f64")]:
+        for _ in range(8 if quick else 60):
+            s_ = rng.choice(shapes_upto(3, 3, 2)); d = len(s_)
+            p_, q_ = rng.sample(range(d), 2)
+            if rng.random() < 0.3: p_ -= d
+            add("forms", "trace_dt S:%s S:%s S:%s %s I:%d I:%d I:%d" % (rng.choice(["view", "eval"]), t_, d_, TA(t_, s_), rng.choice([-1, 0, 0, 1]), p_, q_), "forms")
+            (p2, q2) = rng.choice([(0, 1), (-2, -1)])
+            add("forms", "trace_dtc S:%s S:%s S:%s %s I:%d I:%d I:%d" % (rng.choice(["view", "eval"]), t_, d_, TA(t_, s_), rng.choice([0, 1]), p2, q2), "forms")
+    for (ta, tb, d_) in [("i8", "i8", "i64"), ("u8", "i8", "i16"), ("i16", "i32", "f64"), ("i32", "i32", "i8"), ("i8", "f32", "f64")]:
+        for _ in range(8 if quick else 60):
+            a = rng.choice(small)
+            b = tuple(rng.choice([1, e]) for e in a[:-1])[rng.randint(0, len(a) - 1):] + (a[-1],)
+            add("forms", "vecdot_dt S:%s S:%s S:%s S:%s %s %s" % (rng.choice(["view", "eval"]), ta, tb, d_, TA(ta, a), TA(tb, b)), "forms")
+    # ---------------- acceptance: operand shapes NumPy rejects must give Nothing (unit extents included)
+    def adda(line): add("accept", line)
+    def r13(): return rng.randint(1, 3)
+    for (ka, kb) in [(1, 2), (1, 3), (2, 1), (3, 1), (2, 3), (3, 2), (2, 2), (1, 1)]:
+        for _ in range(3 if quick else 20):
+            pa = tuple(r13() for _ in range(rng.randint(0, 2))); pb = tuple(r13() for _ in range(rng.randint(0, 2)))
+            kd = rng.choice(["view", "eval"])
+            adda("dot S:%s %s %s" % (kd, A(rng, pa + (ka,)), A(rng, (kb,))))
+            adda("dot S:%s %s %s" % (kd, A(rng, pa + (ka,)), A(rng, pb + (kb, r13()))))
+            adda("inner S:%s %s %s" % (kd, A(rng, pa + (ka,)), A(rng, pb + (kb,))))
+            t = tuple(r13() for _ in range(rng.randint(0, 2)))
+            va = tuple(rng.choice([1, e]) for e in t); vb = tuple(rng.choice([1, e]) for e in t)[rng.randint(0, len(t)):]
+            adda("vecdot S:%s %s %s" % (kd, A(rng, va + (ka,)), A(rng, vb + (kb,))))
+            for mk in ("view", "eval", "v2"):
+                adda("matmul S:%s %s %s" % (mk, A(rng, va + (r13(), ka)), A(rng, vb + (kb, r13()))))
+            adda("matmul S:v2 %s %s" % (A(rng, (ka,)), A(rng, vb + (kb, r13()))))
+            adda("matmul S:v2 %s %s" % (A(rng, va + (r13(), ka)), A(rng, (kb,))))
+            adda("tdot S:%s %s %s I:1" % (kd, A(rng, pa + (ka,)), A(rng, (kb,) + pb)))
+            k2 = r13()
+            adda("tdot S:%s %s %s I:2" % (kd, A(rng, pa + (k2, ka)), A(rng, (k2, kb) + pb)))
+            adda("tdot S:%s %s %s I:2" % (kd, A(rng, pa + (ka, k2)), A(rng, (kb, k2) + pb)))
+            ia = rng.randint(0, len(pa)); ib = rng.randint(0, len(pb))
+            sa_ = pa[:ia] + (ka,) + pa[ia:]; sb_ = pb[:ib] + (kb,) + pb[ib:]
+            adda("tdotx S:%s %s %s %s %s" % (kd, A(rng, sa_), A(rng, sb_), L([ia - len(sa_) if rng.random() < 0.3 else ia]), L([ib])))
+    # incompatible / compatible batch shapes (unit batch extents are stretched by NumPy: accepted)
+    for (xa, xb) in [((2,), (3,)), ((3,), (2,)), ((1,), (3,)), ((2,), (1,)), ((2, 1), (3, 2)), ((2, 3), (2, 1)), ((2, 3), (3,)), ((1, 3), (2, 1))]:
+        for _ in range(2 if quick else 10):
+            k = r13()
+            adda("vecdot S:%s %s %s" % (rng.choice(["view", "eval"]), A(rng, xa + (k,)), A(rng, xb + (k,))))
+            for mk in ("view", "eval", "v2"):
+                adda("matmul S:%s %s %s" % (mk, A(rng, xa + (r13(), k)), A(rng, xb + (k, r13()))))
     # ---------------- kron (own translation unit)
     kshp = shapes_upto(3, 3)
     for a in shapes_upto(2, 2):
@@ -321,12 +369,43 @@ def distribution(streams):
 def _ints(tok): return int(tok[2:])
 
 
+def _unit_only_mismatch(pairs):
+    return all(x == y or x == 1 or y == 1 for x, y in pairs) and any(x != y for x, y in pairs)
+
+
 def classify(line, impl, spec, model):
     t = line.split(" ")
     op, kind = t[0], t[1][2:]
     sh = _shapes(line)
-    if op == "matmul" and kind in ("view", "eval") and (len(sh[0]) == 1 or len(sh[1]) == 1) and impl.startswith("trap"):
+    base = op
+    if op == "typed": base = {"matmulv2": "matmul"}.get(kind, kind); kind = "v2" if t[1][2:] == "matmulv2" else "view"
+    if op == "vecdot_dt": base = "vecdot"
+    if base in ("tdot_d", "tdot_ct"): base = "tdot"
+    if base == "tdotx_ct": base = "tdotx"
+    if op == "matmul" and kind in ("view", "eval") and (len(sh[0]) == 1 or len(sh[1]) == 1) and impl.startswith("trap") and spec.strip() != "nothing":
         return "matmul_1d_operand"
+    if spec.strip() == "nothing" and len(sh) == 2:
+        sa, sb = sh
+        # view::matmul / array::matmul unwrap the empty shape_matmul result: trap instead of Nothing
+        # (undefined behaviour: usually bad_array_new_length / bad_alloc, occasionally an array with a garbage shape)
+        if base == "matmul" and kind in ("view", "eval", "fix") and impl.strip() != "nothing":
+            return "matmul_rejected_shapes_trap"
+        # contraction lengths (1, k): the broadcasting multiply stretches the unit extent, values are returned
+        if impl.startswith("ok"):
+            ints = [int(x[2:]) for x in t if x.startswith("I:")]
+            lists = [[int(v) for v in x[2:].split(",") if v] for x in t if x.startswith("L:")]
+            pairs = None
+            if base in ("inner", "vecdot"): pairs = [(sa[-1], sb[-1])]
+            elif base == "matmul" and kind == "v2": pairs = [(sa[-1], sb[0] if len(sb) == 1 else sb[-2])]
+            elif base == "tdot":
+                n = 2 if op == "tdot_d" else ints[0]
+                if n <= len(sa) and n <= len(sb): pairs = [(sa[len(sa) - n + i], sb[i]) for i in range(n)]
+            elif base == "tdotx" and len(lists) == 2 and len(lists[0]) == len(lists[1]):
+                pairs = [(sa[p % len(sa)], sb[q % len(sb)]) for p, q in zip(lists[0], lists[1])]
+            if pairs and _unit_only_mismatch(pairs):
+                return "unit_contraction_mismatch_accepted"
+    if op in ("trace_dt", "trace_dtc"):
+        t = t[:2] + t[4:]                                    # trace_dt S:kind S:T S:D A I I I: drop the two type tokens
     if op == "typed1" and kind == "trace":
         op = "trace"; t = t[:3] + t[4:]                      # typed1 S:trace S:T A I I I: drop the array token, the ints start at t[3]
     if op.startswith("trace"):
